@@ -72,11 +72,40 @@ def special_scalars(rng, n_random=6):
     return [v % r for v in vals]
 
 
+def structured_valid_s(rng, want):
+    """valid encodings whose integer has structured 64-bit / 32-bit words (all ones, zero, a lone high bit): the values on
+    which a hand-written carry / borrow chain or a byte mask in the conversion to bytes goes wrong"""
+    out = []
+    pats = []
+    for w in range(4):
+        for val in ((1 << 64) - 1, 0, 1 << 63, (1 << 32) - 1, 0xffffffff00000000):
+            pats.append((w, val))
+    rng.shuffle(pats)
+    ones = (1 << 64) - 1
+    pats = [(1, ones), (2, ones), (0, ones), (1, 0), (2, 0)] + [p_ for p_ in pats if p_ not in ((1, ones), (2, ones), (0, ones), (1, 0), (2, 0))]
+    tries = 0
+    k = 0
+    while len(out) < want and tries < 4000:
+        tries += 1
+        w, val = pats[k % len(pats)]
+        x = rng.randrange(q)
+        x = (x & ~(((1 << 64) - 1) << (64 * w))) | (val << (64 * w))
+        if w == 3:
+            x &= (1 << 253) - 1
+        if x & 1:
+            x ^= 1
+        if x < q and M.decode(x) is not None:
+            out.append(x)
+            k += 1                      # next pattern only once this one produced a valid encoding
+    return out
+
+
 def valid_encodings(rng, n):
     out = [0, 8]
+    out += structured_valid_s(rng, max(2, n // 3))
     while len(out) < n:
         out.append(M.valid_s(rng))
-    return out
+    return out[:max(n, 4)]
 
 
 def near_misses(rng, valid):
@@ -156,7 +185,7 @@ MSM_FORMS_ARK = ['vartime', 'vartime_own', 'msm', 'msm_unchecked']
 ENC_FORMS_ARK = ['compress', 'to_field', 'into_arr', 'into_enc', 'into_enc_ref', 'enc_into_arr', 'ser', 'ser_aff', 'ser_enc', 'debug',
                  'display', 'debug_aff', 'display_aff', 'debug_enc']
 DEC_FORMS_ARK = ['try_slice', 'enc_try_slice', 'decompress', 'decompress_deprecated', 'try_arr', 'try_enc', 'try_enc_ref', 'enc_from_arr',
-                 'deser_elem', 'deser_aff', 'deser_enc']
+                 'deser_elem', 'deser_aff', 'deser_enc', 'deser_elem_drip', 'deser_aff_drip', 'deser_enc_drip']
 ISID_FORMS_ARK = ['is_identity', 'is_zero', 'eq_identity', 'eq_default', 'aff_is_zero', 'aff_eq_zero']
 ID_FORMS_ARK = ['const', 'default', 'zero', 'aff_zero', 'aff_default']
 GEN_FORMS_ARK = ['const', 'group', 'affine']
@@ -869,6 +898,18 @@ def gen_C11(rng, tier):
                     cases.append(Case('f.%s.from_le_mod.%s %s' % (fld, form, hexb(bs)), cls='%s:from_le_mod:%s' % (fld, 'le%d' % (ln // n8)), oracle=expect(H(v % m))))
                 cases.append(Case('f.%s.from_be_mod %s' % (fld, hexb(bs)), builds=('ark',), cls='%s:from_be_mod' % fld, oracle=expect(H(int.from_bytes(bs, 'big') % m))))
                 cases.append(Case('f.%s.biguint_rt %s' % (fld, hexb(bs)), builds=('ark',), cls='%s:biguint' % fld, oracle=expect(H(v % m))))
+        # byte strings assembled from whole chunks with structure (zero, all ones, the modulus and its multiples, p - 1)
+        # in every position, with and without a partial top chunk: a reduction loop that special-cases a chunk value
+        ch = {'z': bytes(n8), 'o': b'\xff' * n8, 'm': (m % (1 << (8 * n8))).to_bytes(n8, 'little'), 'k': ((3 * m) % (1 << (8 * n8))).to_bytes(n8, 'little'),
+              'p': (m - 1).to_bytes(n8, 'little'), 'r': None, '1': (1).to_bytes(n8, 'little')}
+        shapes = ['z1', 'zz1', '1z', 'mz1', 'zm', 'm1', 'km', 'pz1', 'z', 'zz', 'oz1', 'zo', '1zz1', 'rzr', 'zrz', 'mm1']
+        for shp in shapes:
+            for tail in (b'', b'\x01', b'\x00\x01', bytes([rng.getrandbits(8) | 1])):
+                bs = b''.join(ch[c] if ch[c] is not None else bytes(rng.getrandbits(8) for _ in range(n8)) for c in shp) + tail
+                v = int.from_bytes(bs, 'little')
+                for form in ('inh', 'trait'):
+                    cases.append(Case('f.%s.from_le_mod.%s %s' % (fld, form, hexb(bs)), cls='%s:from_le_mod:chunks' % fld, oracle=expect(H(v % m))))
+                cases.append(Case('f.%s.from_be_mod %s' % (fld, hexb(bs[::-1])), builds=('ark',), cls='%s:from_be_mod:chunks' % fld, oracle=expect(H(v % m))))
         # canonical and non-canonical N8-byte strings
         nc = [m - 1, m, m + 1, 0, 1, (1 << (8 * n8)) - 1, 1 << (8 * n8 - 1), 2 * m, 2 * m + 1] + [1 << k for k in range(0, 8 * n8, 37)] + vs + [rng.getrandbits(8 * n8) for _ in range(20)]
         nc = [x for x in nc if x < (1 << (8 * n8))]
@@ -1071,6 +1112,11 @@ def gen_C13(rng, tier):
                               oracle=lambda out, bld, e=fn(x): None if gfields(out).get('sat') == '1' and gfields(out).get('out') == e else 'sign gadget differs from native'))
         # elligator
         cases.append(Case('g.elligator r0=%s' % h32(x), builds=R, cls='elligator', canon=gcanon, spec='spec.gell %s' % h32(x)))
+        # the same gadgets on CONSTANT inputs (no constraint system to allocate hints in): same values, still satisfied
+        cases.append(Case('g.isqrt x=%s fmode=const' % h32(x), builds=R, cls='isqrt:const', oracle=orc, canon=gcanon))
+        cases.append(Case('g.abs x=%s fmode=const' % h32(x), builds=R, cls='abs:const', canon=gcanon,
+                          oracle=lambda out, bld, e=h32((q - x) % q if x & 1 else x): None if gfields(out).get('sat') == '1' and gfields(out).get('out') == e else 'sign gadget differs from native'))
+        cases.append(Case('g.elligator r0=%s fmode=const' % h32(x), builds=R, cls='elligator:const', canon=gcanon, spec='spec.gell %s' % h32(x)))
     # decompress: satisfied exactly when native decoding succeeds
     for cls, b in near_misses(rng, encs[:4] if tier == 'quick' else encs[:20]):
         v = int.from_bytes(bytes.fromhex(b), 'little')
@@ -1087,9 +1133,15 @@ def gen_C13(rng, tier):
                 return None if f.get('sat') == '0' else 'invalid encoding decoded in-circuit by the honest prover'
             return None if f.get('sat') == '1' and f.get('out') == h32(ne) else 'decompress gadget differs from native decoding'
         cases.append(Case('g.decompress s=%s' % h32(v), builds=R, cls='decompress:' + cls, oracle=orc, canon=gcanon))
+        if ne is not None:
+            # a constant valid encoding decodes to the same element (an invalid constant has no system to be unsatisfied in)
+            cases.append(Case('g.decompress s=%s fmode=const' % h32(v), builds=R, cls='decompress:const:' + cls, canon=gcanon,
+                              oracle=lambda out, bld, ne=ne: None if gfields(gcanon(out)).get('out') == h32(ne) else 'decompress gadget on a constant differs from native decoding'))
     els = elem_args(rng, encs, pg, 4)
     for cls, mk in els:
         cases.append(Case('g.compress %s' % mk('e'), builds=R, cls='compress:' + cls, oracle=sat1, canon=gcanon))
+        for pre in ('const', 'input'):
+            cases.append(Case('g.compress %s pre=%s' % (mk('e'), pre), builds=R, cls='compress:%s:%s' % (pre, cls), oracle=sat1, canon=gcanon))
         for op in ('neg', 'dbl'):
             cases.append(Case('g.%s %s' % (op, mk('a')), builds=R, cls=op + ':' + cls, oracle=sat1, canon=gcanon))
         for mode in ('alloc_witness', 'alloc_witness_aff', 'alloc_constant'):
@@ -1104,6 +1156,9 @@ def gen_C13(rng, tier):
         cases.append(Case('g.alloc_input %s' % mk('e'), builds=R, cls='alloc_input:' + cls, oracle=oinp, nomodel=True))
         for bits in ('', '0', '1', '101', '0001', ''.join(rng.choice('01') for _ in range(24))) + ((''.join(rng.choice('01') for _ in range(253)),) if tier == 'thorough' else ()):
             cases.append(Case('g.scalarmul %s bits=%s' % (mk('a'), bits), builds=R, cls='scalarmul:%dbits' % len(bits), oracle=sat1, canon=gcanon))
+            if bits:
+                for bm in ('const', 'mixed', 'input'):
+                    cases.append(Case('g.scalarmul %s bits=%s bmode=%s' % (mk('a'), bits, bm), builds=R, cls='scalarmul:%dbits:%s' % (len(bits), bm), oracle=sat1, canon=gcanon))
         # lazy forcing: every order and repetition
         seqs = [[]]
         for L in range(1, 4 if tier == 'quick' else 5):
@@ -1153,7 +1208,7 @@ def gen_C13(rng, tier):
     vel = [h32(s) for s in encs[:6]]
     for i, ea in enumerate(vel):
         eb = vel[(i * 2 + 1) % len(vel)]
-        for pre in ('enc', 'input'):
+        for pre in ('enc', 'input', 'const'):
             for op in ('add', 'sub', 'add_ref', 'sub_ref', 'add_asg', 'sub_asg', 'add_const', 'sub_const', 'add_const_asg', 'sub_const_asg', 'select'):
                 cases.append(Case('g.%s a=%s b=%s c=%d pre=%s post=enc' % (op, ea, eb, i % 2, pre), builds=R, cls='%s:pre-%s' % (op, pre), oracle=oenc, canon=gcanon))
             for op in ('neg', 'dbl'):
